@@ -150,10 +150,45 @@ class C02(Check):
                 if floats(o["loop_u"]) != nu or floats(o["loop_w"]) != nw or (rc.directed and floats(o["loop_v"]) != nv):
                     self.corr_broken.append(("sweep@trace", c2, "loop vs run", "loop() on state t differs from the run's state t+1", ""))
                 self.ref_check(c2, o, rc.directed, rc.assort, rc.K, rc.recs, rc.L, rc.wt, net, u, v, w, "loop_")
+        # (c) realistic size: the repository's own golden inputs (N=300, thousands of records) through model and code
+        self.golden()
         self.cov["rule"] = ("random multigraphs (N 2-7, L 1-3, K 2-4; parallel records, weights 0/1/2/>2 and real, self-loops, "
                             "source-/sink-only vertices) x all variants; arbitrary states (values around 1e-6, zero rows/columns) "
                             "and transitions of real trajectories; a case is non-trivial if at least one entry changed in the sweep; "
                             "distinct by (variant, records, state)")
+
+    def golden(self):
+        import os
+        cfgs = [("main", "adjacency.dat", True, False, "r", 2, None, 1),
+                ("undirected", "adjacency.dat", False, False, "r", 2, None, 1),
+                ("assortative", "adjacency_assortative_k3L4.dat", True, True, "r", 3, None, 1),
+                ("multi_real", "adjacency_k2L4.dat", True, False, "f", 2, "w_k2_k2L4_r2.dat", 2)]
+        if self.tier == "quick":
+            cfgs = cfgs[:1]
+        lines = []
+        for name, adj, directed, assort, init, K, wfile, r in cfgs:
+            path = os.path.join(C.REPO, "data", name, adj)
+            if not os.path.exists(path):
+                continue
+            recs = []
+            for l in open(path):
+                t = l.split()
+                if len(t) >= 3:
+                    recs.append((int(t[0]), int(t[1]), [int(x) for x in t[2:]]))
+            L = len(recs[0][2])
+            aff = None
+            if wfile:
+                aff = [0.0] * (K * K * L)
+                for l in open(os.path.join(C.REPO, "data", name, wfile)):
+                    t = l.split()
+                    if t and t[0] != "#":
+                        for g in range(K):
+                            aff[g + g * K + int(t[0]) * K * K] = float(t[1 + g])
+            rc = RunCase(directed, assort, init, K, recs, L, r=r, maxit=3 if self.tier == "quick" else 100,
+                         nconv=10, seed=5489, aff=aff)
+            lines.append(rc.line("golden_" + name))
+            self.dist("golden input " + name)
+        self.correspond("run@golden", lines, keys=["u", "v", "aff", "L2s", "iters", "reasons", "labels"])
 
     def ref_check(self, cid, o, directed, assort, K, recs, L, wt, net, u, v, w, pre):
         st = ref.state_of(u, v if directed else u, w, net.N, K, L, assort, directed)
@@ -268,8 +303,10 @@ class TrajCheck(Check):
         rng = self.rng
         runs = {}
         for k in range(n):
+            # a third of the trajectories start from non-zero caller buffers (hold-out style reuse)
             runs["tj%d" % k] = random_run(rng, tr=2, variants=variants, maxit=rng.choice(maxit_choices),
-                                          r=rng.choice(r_choices), nconv=rng.choice([2, 10]), **over)
+                                          r=rng.choice(r_choices), nconv=rng.choice([2, 10]),
+                                          prior=rng.choice([0.0, 0.0, 2.5]), **over)
         io, mo = self.correspond("run", [rc.line(c) for c, rc in runs.items()])
         res = []
         for cid, rc in runs.items():
